@@ -196,7 +196,7 @@ Proof. split; intros H; exact H. Qed.
 Section Quiet.
 Variable maxc : N.
 
-(* the unparsed bytes admit no further step: none left, a payload (or GetValues pair) still incomplete,
+(* the unparsed bytes allow no further step: none left, a payload (or GetValues pair) still incomplete,
    or an incomplete header *)
 Definition stuck (a : ast) : Prop :=
   a_raw a = [] \/ (0 < a_prem a /\ len (a_raw a) < a_prem a) \/
